@@ -700,7 +700,21 @@ def handle (st : St) (seq : String) (f : List String) : St × List String :=
       let m2 := (if badIds && decide (IdsOk st.cfg st.s) then [s!"MON\t{seq}\tids_consistent\tmigrate"] else []) ++
                 (if gapChanged (borGaps st.cfg false st.s) (borGaps newCfg false impl) then [s!"MON\t{seq}\ttotal_borrowed\tmigrate"] else []) ++
                 (if gapChanged (borGaps st.cfg true st.s) (borGaps newCfg true impl) then [s!"MON\t{seq}\ttotal_stable\tmigrate"] else [])
-      ({ st with cfg := newCfg, s := impl, accB := implB, accL := implL, now := now }, d1 ++ d2 ++ d3 ++ m1 ++ m2)
+      -- re-synchronise the configuration to the real one (as the state is): a disagreement is reported once, on this line
+      let pflags : List (Nat × Bool × Bool) := (splitOnNE pairs ",").filterMap fun x => match x.splitOn ":" with
+        | [i, a, b] => (parseNat? i).map fun i => (i, a == "true", b == "true")
+        | _ => none
+      let rflags : List (Nat × Bool × Bool × Int × Int) := (splitOnNE rates ",").filterMap fun x => match x.splitOn ":" with
+        | [i, a, b, el, ep, _, _, _] => do pure ((← parseNat? i), a == "true", b == "true", (← parseInt? el), (← parseInt? ep))
+        | _ => none
+      let realCfg : Cfg := { newCfg with
+        pairs := newCfg.pairs.map fun p => match pflags.lookup p.id with
+          | some (i, e) => { p with inter := i, eMode := e }
+          | none => p,
+        rates := newCfg.rates.map fun r => match rflags.lookup r.asset with
+          | some (so, iso, el, ep) => { r with stableOk := so, isolated := iso, eLtv := el, eLiqPenalty := ep }
+          | none => r }
+      ({ st with cfg := realCfg, s := impl, accB := implB, accL := implL, now := now }, d1 ++ d2 ++ d3 ++ m1 ++ m2)
     | _, _ => bad "migrate state"
   | "lend.op" :: name :: rest => opLine st seq name rest
   | _ => bad "unknown lend line"
